@@ -218,6 +218,25 @@ for _p, _t in EXTRA7.items():
     if _p in CLAIMED:
         CLAIMED[_p]["text"] += _t
 
+EXTRA8 = {
+ "C01": " Round 7: an empty list is a list -- no failure exit of the IN / NOT IN arms depends on the asserted right side being nil or empty (c01.in-siblings/empty-list); every strconv conversion of the module is the exact one (num.strconv-exact: constant base 10, bit size of the value's type).",
+ "C02": " Round 7: an unaliased item is keyed by the parser's own name of the item, not by a name rebuilt from the parts of the reference (c02.keys); Cmp[T] is the trichotomy of the two values for the comparisons of CASE WHEN as well (c15.trichotomy); num.strconv-exact.",
+ "C04": " Round 7: the textual form writes the value itself, not a rounded or recomputed number (c18.text-of), so the join keys tell apart what Compare tells apart; num.strconv-exact; digits formatted into a local scratch array and copied by Write count as the length prefix they are.",
+ "C05": " Round 7: OFFSET is applied whether or not there is a LIMIT -- the offset reslice is not control-dependent on limitDefinition unless every writer of offsetDefinition also stores the row count on each of its success exits (c05.window/offset-unconditional, a condition over two functions); num.strconv-exact.",
+ "C06": " Round 7: the error discipline of C19 inside the union builder and the branch executor (c06.branch-errors): a failing branch is never taken for a branch without rows.",
+ "C07": " Round 7: the name of a CTE wins over an entry of the enclosing registry -- no unconditional copy into the registry can run after a registration (c07.registry-fresh/wins-over-copied-entries).",
+ "C09": " Round 7: num.strconv-exact ({k|string} writes a float64 with bit size 64; index literals are parsed in base 10).",
+ "C13": " Round 7: no goroutine started in a loop performs a blocking send on a channel of constant capacity (c10.bounded-send: the second failing key of a PARALLEL join would block before Done).",
+ "C15": " Round 7: num.strconv-exact; c18.text-of writes the value itself.",
+ "C16": " Round 7: num.strconv-exact (integer literals and arguments in base 10, floats with bit size 64).",
+ "C18": " Round 7: num.strconv-exact (CHANGETYPE(..., 'integer') parses base 10: '00120' is 120, '0x1F' is refused); c18.text-of writes the value itself.",
+ "C19": " Round 7: an error stored into a captured variable by a callback (a sort comparator) or by a closure created in a loop is stored only when it is non-nil -- otherwise the nil of a later run overwrites an earlier failure (c19.no-drop, status `overwritten`); an error stored through a *error out-parameter is handed to the caller.",
+ "C20": " Round 7: the argument list of a call is storage made by that call (c18.arg-reader: SETVAR('b', GETVAR('a')) keeps its own first argument); a NULL arithmetic result stored by SETVAR is the untyped NULL (c12.unwrap-table); num.strconv-exact.",
+}
+for _p, _t in EXTRA8.items():
+    if _p in CLAIMED:
+        CLAIMED[_p]["text"] += _t
+
 _pending = "rule set for this property is not implemented yet in this round (see DESIGN.md section 2 for the planned structural rules)"
 for p in ["C01","C02","C03","C04","C05","C06","C07","C09","C10","C11","C12","C13","C14","C15","C16","C17","C18","C19","C20"]:
     if p not in CLAIMED:
